@@ -1243,17 +1243,17 @@ impl<'a> Gen<'a> {
                     self.new_sig(env);
                     Some(Stmt::Signal(self.val()))
                 }
+                // computations created inside a body run as part of it (creation = first run), and are
+                // re-created by its re-runs: their reads and writes count for the enclosing computation too
                 9 if depth > 0 => {
                     let mut e1 = env.clone();
-                    let mut rwm = RW::new();
-                    let inner = self.pure_or_body(&mut e1, depth - 1, &mut rwm);
-                    env.push((HK::Memo, rwm.max_read));
+                    let inner = self.pure_or_body(&mut e1, depth - 1, rw);
+                    env.push((HK::Memo, rw.max_read));
                     Some(if self.rng.chance(1, 3) { Stmt::Selector(*self.rng.pick(&[EqK::Same, EqK::Parity]), inner) } else { Stmt::Memo(inner) })
                 }
                 10 if depth > 0 => {
                     let mut e1 = env.clone();
-                    let mut rwe = RW::new();
-                    let inner = self.body(&mut e1, depth - 1, true, &mut rwe, rich);
+                    let inner = self.body(&mut e1, depth - 1, true, rw, rich);
                     env.push((HK::Effect, 0));
                     Some(Stmt::Effect(inner))
                 }
@@ -1599,8 +1599,13 @@ pub fn run(args: &Args) {
             cases.push(g.program(profile));
         }
     }
+    let trace_cases = std::env::var("VERIF_TRACE_CASES").is_ok();
     for ops in &cases {
         let line = case_line(ops);
+        if trace_cases {
+            // a stack overflow (unbounded cascade) kills the process: leave the culprit in a file
+            let _ = std::fs::write(args.out.join("reactive.current"), &line);
+        }
         let r = run_case(ops);
         for f in &r.flags {
             sink.count(&format!("flag:{f}"));
